@@ -26,7 +26,7 @@ import itertools
 from fractions import Fraction as F
 
 from ..loader import AnalysisError
-from ..pe import PE, Mock, PyRaise, Tensor, Fork, Func, ClassRef
+from ..pe import PE, Mock, PyRaise, Tensor, Fork, Func, ClassRef, Unsupported
 from ..qir import Fwd, mk_app, equal_mod_finite
 from ..nf import NF, show
 
@@ -53,6 +53,26 @@ def qmock(tag, cls="quantized_bits", **attrs):
   return Mock("quantizer_" + tag, a)
 
 
+# repository classes whose constructor (own or inherited within the
+# repository) assigns `self.quantizers`: their stand-ins carry the attribute
+# too, the others are reachable through get_quantizers() only
+_SETS_QUANTIZERS_ATTR = {}
+
+
+def _note_quantizer_attributes(repo):
+  _SETS_QUANTIZERS_ATTR.clear()
+  for ci in repo.classes.values():
+    sets = False
+    for c in ci.mro():
+      for fn in c.methods.values():
+        for n in ast.walk(fn):
+          if isinstance(n, ast.Attribute) and n.attr == "quantizers" and \
+              isinstance(n.ctx, ast.Store) and isinstance(
+                  n.value, ast.Name) and n.value.id == "self":
+            sets = True
+    _SETS_QUANTIZERS_ATTR[ci.name] = sets
+
+
 def layer_mock(name, classes, quantizers, weights, record, **attrs):
   a = {"name": name, "__classes__": set(classes),
        "__class__": Mock("class", {"__name__": classes[0]}),
@@ -62,6 +82,8 @@ def layer_mock(name, classes, quantizers, weights, record, **attrs):
        "set_weights": lambda pe, ar, k: record.setdefault(name, []).append(
            list(ar[0])),
        "use_bias": True}
+  if _SETS_QUANTIZERS_ATTR.get(classes[0], True):
+    a["quantizers"] = list(quantizers)
   a.update(attrs)
   return Mock(name, a)
 
@@ -507,6 +529,7 @@ def rule_fused_export(rep, repo):
         "name": "conv", "__classes__": {cls},
         "__class__": Mock("class", {"__name__": cls}),
         "get_quantizers": lambda pe, a, k, qs=qs: list(qs),
+        "quantizers": list(qs),     # (both classes assign self.quantizers)
         "get_weights": lambda pe, a, k: list(store["conv"]),
         "set_weights": lambda pe, a, k: store.__setitem__("conv",
                                                           list(a[0])),
@@ -722,7 +745,13 @@ def rule_pairing(rep, repo):
   for n in ast.walk(fn):
     if isinstance(n, ast.If):
       body_src = " ".join(ast.unparse(s) for s in n.body)
-      if "get_quantizers()[:-1]" in body_src:
+      if any(isinstance(x, ast.Subscript) and isinstance(
+          x.slice, ast.Slice) and x.slice.lower is None and isinstance(
+              x.slice.upper, ast.UnaryOp) and isinstance(
+                  x.slice.upper.op, ast.USub) and isinstance(
+                      x.slice.upper.operand, ast.Constant) and
+             x.slice.upper.operand.value == 1
+             for s_ in n.body for x in ast.walk(s_)):
         for x in ast.walk(n.test):
           if isinstance(x, ast.List):
             sliced |= {e.id for e in x.elts if isinstance(e, ast.Name)}
@@ -1487,6 +1516,59 @@ def rule_freeze_main(rep, repo):
     rep.ok("R10")
 
 
+def rule_every_quantized_class_is_exported(rep, repo, rule="R16"):
+  """Every layer class of the library that reports quantizers through
+  get_quantizers() is exported: a stand-in of the class - carrying a
+  `quantizers` attribute only if the real class assigns one - with a kernel
+  and a bias quantizer appears in the returned dictionary and is handed the
+  quantized weights."""
+  um = repo.module(UM)
+  unit = "%s::model_save_quantized_weights" % um.relpath
+  loc = um.loc(um.functions["model_save_quantized_weights"])
+  fw = Fwd()
+  n = 0
+  skipped = {}
+  for ci in sorted(repo.classes.values(), key=lambda c: c.qualname):
+    if not ci.module.name.startswith("qkeras.q") or \
+        ci.module.name.startswith("qkeras.qtools"):
+      continue
+    if ci.find_method("get_quantizers")[1] is None or ci.name.endswith(
+        "Cell") or ci.name in ("QActivation", "QAdaptiveActivation",
+                               "QBidirectional", "QBatchNormalization"):
+      continue
+    rnn = ci.name in ("QSimpleRNN", "QLSTM", "QGRU")
+    record = {}
+    qs = [qmock("k"), qmock("r"), qmock("b"), qmock("state")] if rnn else \
+        [qmock("k"), qmock("b")]
+    ws = [S("kernel"), S("recurrent"), S("bias")] if rnn else \
+        [S("kernel"), S("bias")]
+    extra = {"pool_size": (2, 2)} if "Pooling" in ci.name else {}
+    layer = layer_mock("lyr", [ci.name], qs, ws, record, **extra)
+    try:
+      out = run_export(repo, [layer])
+    except (PyRaise, Unsupported) as e:
+      skipped[ci.name] = str(e)[:100]
+      continue
+    n += 1
+    got = record.get("lyr", [])
+    first = nf_of(got[0][0], fw) if got and got[0] else None
+    # (the folded batch-norm classes are exported but keep their own
+    # weights: R2 / R13 decide what the export does with them)
+    folded = ci.name.endswith("Batchnorm")
+    ok = isinstance(out, dict) and "lyr" in out and (
+        folded or first == mk_app("Q_k", [NF.sym("kernel")]))
+    rep.check(ok, rule, unit, "quantized-layer-not-exported:" + ci.name,
+              "a %s layer with a kernel and a bias quantizer: %s" % (
+                  ci.name, "it is not in the exported dictionary and keeps "
+                  "its float weights" if not (isinstance(out, dict) and
+                                              "lyr" in out) else
+                  "set_weights receives %s for the kernel" % (
+                      show(first) if first is not None else "nothing")),
+              loc=loc, instance=ci.name)
+  rep.extra["export_classes_not_interpretable"] = skipped
+  return n
+
+
 def run(rep, repo, tier):
   rep.trusted.append("Keras weight order of the parent layer classes "
                      "(table in the rule); set_weights stores what it is "
@@ -1495,8 +1577,12 @@ def run(rep, repo, tier):
                          "second export changes nothing' are numeric "
                          "consequences (idempotence, C02) and are not "
                          "decided here")
+  _note_quantizer_attributes(repo)
   rule_export(rep, repo)
   rule_export_per_layer(rep, repo)
+  if rule_every_quantized_class_is_exported(rep, repo) < 10:
+    raise AnalysisError("instance-count exported classes: %r" %
+                        rep.extra.get("export_classes_not_interpretable"))
   rep.require_instances("R12", 16)
   rule_po2_export_values(rep, repo, tier)
   rule_bn_fusing(rep, repo)
